@@ -335,7 +335,41 @@ func init() {
 	extraOps["packetlists"] = func(s *exec.State, ev abs.V) { s.PacketLists(uint16(abs.I(ev["id"])), u16list(ev["args"])) }
 	extraOps["ranges"] = func(s *exec.State, ev abs.V) { s.Ranges(uint16(abs.I(ev["pid"])), uint16(abs.I(ev["blp"]))) }
 	drivers["nackrand"] = func(s *exec.State, g *gen.G, n int) {
+		// arithmetic progressions that wind around the 16-bit ring and come back next to their start:
+		// the m-th successor of the first number is d away from it although the numbers in between are not
+		for _, m := range []int{15, 16, 17} {
+			for _, d := range []int{m - 1, m, m + 1, 0, 1, 2} {
+				var strides []int
+				for st := 1; st < 65536; st++ {
+					if (st*m-d)%65536 == 0 {
+						strides = append(strides, st)
+					}
+				}
+				for _, st := range strides {
+					for _, ln := range []int{m + 1, m + 3} {
+						for _, base := range []int{1000, 65530} {
+							seqs := make([]uint16, ln)
+							for j := range seqs {
+								seqs[j] = uint16(base + j*st)
+							}
+							scriptNack(s, seqs)
+						}
+					}
+				}
+			}
+		}
 		for i := 0; i < n; i++ {
+			if i%6 == 5 {
+				// a progression with an arbitrary stride
+				st := g.Pick(g.U16(), 4097, 8193, 4095, 3855, 21845, 32769, g.R.Intn(65536))
+				seqs := make([]uint16, g.Pick(5, 17, 18, 33, 40))
+				base := g.U16()
+				for j := range seqs {
+					seqs[j] = uint16(base + j*st)
+				}
+				scriptNack(s, seqs)
+				continue
+			}
 			k := g.Pick(0, 1, 2, 3, 5, 8, 17, 33, 64)
 			seqs := make([]uint16, k)
 			base := g.U16()
